@@ -9,6 +9,7 @@ def runCase (lines : Array String) : Array String :=
     | "kill" :: _ => "kill done"
     | ["reopen"] => "reopen same=1"
     | "append" :: _ => "append larger=1"
+    | ["busyappend"] => "busyappend refused"
     | _ => "bad-op " ++ l
 
 def kvOf (ws : List String) (k : String) : String :=
